@@ -58,7 +58,7 @@ def partitions(rng, tops, n_layers, kinds="mixed"):
     return layers
 
 
-def _episode(rng, world, layer_sets, n_rules=None, laws=True):
+def _episode(rng, world, layer_sets, n_rules=None, laws=True, render="ident"):
     w = world if isinstance(world, World) else World(world["modules"], world["imports"])
     items = []
     k = 0
@@ -92,7 +92,7 @@ def _episode(rng, world, layer_sets, n_rules=None, laws=True):
                 items.append({"op": "leval", "a": 0, "rid": rid + "s", "rule": r2,
                               "layers": list(reversed(alt)) if rng.random() < 0.5 else alt})
                 items.append({"op": "law", "law": "same", "as": [0, 0], "rids": [rid, rid + "s"]})
-    return {"driver": "layers", "world": w.json(), "render": "ident", "items": items}
+    return {"driver": "layers", "world": w.json(), "render": render, "items": items}
 
 
 def _intra_episode(rng, w, layers):
@@ -148,7 +148,8 @@ def specs_for(ctx):
         made += 1
         n = rng.randint(2, min(4, len(tops)))
         layers = partitions(rng, tops, n, kinds=rng.choice(["names", "regex", "mixed"]))
-        specs.append(_episode(rng, w, [layers], n_rules=36))
+        # names as they are, or rendered so that siblings are string prefixes / substrings of one another
+        specs.append(_episode(rng, w, [layers], n_rules=36, render=rng.choice(["ident", "adv", "adv2"])))
         if made % 3 == 0:
             ie = _intra_episode(rng, w, layers)
             if ie:
